@@ -397,13 +397,14 @@ class StmtMixin:
                 return r[1], None
         return None
 
-    def _for_generator(self, n, gen, selfterm, st, fx):
-        """for x in gen(..): BODY - the generator's body is walked with BODY run at each yield (lazy, interleaved, as at run time)."""
+    def _for_generator(self, n, gen, selfterm, st, fx, made=None):
+        """for x in gen(..): BODY - the generator's body is walked with BODY run at each yield (lazy, interleaved, as at run time).
+        `made`: (args, keyword bindings) of a generator object created earlier (handed in as an argument) and consumed here."""
         func = gen
         call = n.iter
         if func.qual in st.frames or len(st.frames) >= self.inline_depth:
             raise AnalysisError("generator %s: recursion / inlining bound at %s:%d" % (func.qual, fx.func.file, n.lineno))
-        for r, args, s in self.ev_list(list(call.args), st, fx):
+        for r, args, s in ([("ok", list(made[0]), st)] if made is not None else self.ev_list(list(call.args), st, fx)):
             if r == "raise":
                 yield ("raise", args), s
                 continue
@@ -414,7 +415,9 @@ class StmtMixin:
                 params = params[1:]
             for p, a in zip(params, args):
                 binds[p] = a
-            for kwd in call.keywords:
+            if made is not None:
+                binds.update(dict(made[1]))
+            for kwd in (call.keywords if made is None else []):
                 for r2, v, s in self.ev(kwd.value, s, fx):
                     binds[kwd.arg] = v
                     break
@@ -451,7 +454,10 @@ class StmtMixin:
                         if ex2 is None or ex2[0] == "continue":
                             yield back(s3, None)
                         else:
-                            s3.consumer_exit = ex2       # break / return / raise of the loop body: the generator is abandoned
+                            # break / return / raise of the loop body: the generator is abandoned.  When the body is itself a `yield` of an
+                            # enclosing generator whose consumer left, it is that consumer's exit that travels outwards
+                            if getattr(s3, "consumer_exit", None) is None:
+                                s3.consumer_exit = ex2
                             yield back(s3, ("return", NONE))
             nfx.on_yield = on_yield
             for exit_, s2 in self.block(func.node.body, s, nfx):
@@ -503,6 +509,59 @@ class StmtMixin:
                     f2 = ast.copy_location(ast.For(target=n.target, iter=d.value, body=n.body, orelse=[]), n)
                     out.extend(self._desugared_for(f2, st, fx) or [f2])
                 return out
+        if isinstance(it, ast.Call) and not it.keywords and not it.args and isinstance(it.func, ast.Attribute) and isinstance(it.func.value, ast.Name) \
+                and it.func.value.id == "self" and fx.cls is not None:
+            # for x in self._helper(): where the helper only names a few things and returns an iterable expression (a chain of the windows'
+            # values, a generator expression over a tuple of registries): the loop over that expression, the helper's locals renamed
+            cls = self.class_of(fx.selfterm) or fx.cls
+            m = self.prog.lookup_method(cls, it.func.attr)
+            if m is not None and not m.is_generator and m.module is fx.func.module and m.params == ["self"] and not m.is_property:
+                hb = [x for x in m.node.body if not (isinstance(x, ast.Expr) and isinstance(x.value, ast.Constant))]
+
+                def plain(v):
+                    return not any(isinstance(y, (ast.Call, ast.Lambda, ast.GeneratorExp, ast.ListComp, ast.NamedExpr, ast.Await, ast.Yield)) for y in ast.walk(v))
+                if hb and isinstance(hb[-1], ast.Return) and hb[-1].value is not None and isinstance(hb[-1].value, (ast.Call, ast.GeneratorExp, ast.Tuple, ast.List)) \
+                        and all(isinstance(x, ast.Assign) and len(x.targets) == 1 and plain(x.value)
+                                and (isinstance(x.targets[0], ast.Name) or (isinstance(x.targets[0], ast.Tuple) and all(isinstance(e, ast.Name) for e in x.targets[0].elts)))
+                                for x in hb[:-1]) \
+                        and not (isinstance(hb[-1].value, ast.Call) and not (
+                            (hb[-1].value.func.attr if isinstance(hb[-1].value.func, ast.Attribute) else getattr(hb[-1].value.func, "id", None))
+                            in ("chain", "from_iterable", "iter", "reversed", "list", "tuple"))):
+                    import copy as _copy
+                    names = {y.id for x in hb for y in ast.walk(x) if isinstance(y, ast.Name) and isinstance(y.ctx, ast.Store)}
+                    names |= {g.id for y in ast.walk(hb[-1].value) if isinstance(y, ast.comprehension) for g in ast.walk(y.target) if isinstance(g, ast.Name)}
+
+                    class Ren(ast.NodeTransformer):
+                        def visit_Name(self_, y):
+                            if y.id in names:
+                                return ast.copy_location(ast.Name(id="__%s_%s" % (m.name, y.id), ctx=y.ctx), y)
+                            return y
+                    pre = [ast.copy_location(Ren().visit(_copy.deepcopy(x)), n) for x in hb[:-1]]
+                    f2 = ast.copy_location(ast.For(target=n.target, iter=Ren().visit(_copy.deepcopy(hb[-1].value)), body=n.body, orelse=n.orelse), n)
+                    for x in pre + [f2]:
+                        ast.fix_missing_locations(x)
+                    return pre + (self._desugared_for(f2, st, fx) or [f2])
+        if isinstance(it, ast.Call) and not it.keywords and len(it.args) == 1 and isinstance(it.func, ast.Attribute) and it.func.attr == "from_iterable" \
+                and not n.orelse and not any(isinstance(x, ast.Break) for b in n.body for x in ast.walk(b)):
+            # chain.from_iterable(ITS): for each iterable of ITS in turn, its elements
+            a = it.args[0]
+            if isinstance(a, (ast.GeneratorExp, ast.ListComp)) and len(a.generators) == 1:
+                g = a.generators[0]
+                inner = ast.For(target=n.target, iter=a.elt, body=n.body, orelse=[])
+                body = [inner]
+                for c in reversed(g.ifs):
+                    body = [ast.If(test=c, body=body, orelse=[])]
+                outer = ast.For(target=g.target, iter=g.iter, body=body, orelse=[])
+            else:
+                v = "__chain_part_%d" % n.lineno
+                inner = ast.For(target=n.target, iter=ast.Name(id=v, ctx=ast.Load()), body=n.body, orelse=[])
+                outer = ast.For(target=ast.Name(id=v, ctx=ast.Store()), iter=a, body=[inner], orelse=[])
+            ast.copy_location(outer, n)
+            for x in ast.walk(outer):
+                if not hasattr(x, "lineno"):
+                    ast.copy_location(x, n)
+            ast.fix_missing_locations(outer)
+            return [outer]
         if isinstance(it, ast.Call) and not it.keywords and not any(isinstance(a, ast.Starred) for a in it.args):
             nm = it.func.attr if isinstance(it.func, ast.Attribute) else (it.func.id if isinstance(it.func, ast.Name) else None)
             if nm == "chain" and it.args and not n.orelse and not any(isinstance(x, (ast.Break,)) for b in n.body for x in ast.walk(b)):
@@ -572,6 +631,19 @@ class StmtMixin:
             if r == "raise":
                 yield ("raise", it), s
                 continue
+            from .terms import has_genobj
+            if isinstance(it, tuple) and it[:1] == ("genobj",) and isinstance(n.iter, ast.Name) and len(it) >= 5:
+                # a generator object received as an argument (validators handed to a "raise the first problem" helper): its body runs here,
+                # lazily - provided this loop is its only consumer in the function and is not itself repeated
+                nm = n.iter.id
+                loads = [x for x in ast.walk(fx.func.node) if isinstance(x, ast.Name) and x.id == nm and isinstance(x.ctx, ast.Load)]
+                nested = any(isinstance(l, (ast.For, ast.While)) and l is not n and any(y is n for y in ast.walk(l)) for l in ast.walk(fx.func.node))
+                gfunc = self.prog.funcs.get(it[1])
+                if len(loads) == 1 and not nested and gfunc is not None:
+                    yield from self._for_generator(n, gfunc, it[3], s, fx, made=(it[2], it[4]))
+                    continue
+            if has_genobj(it):
+                raise AnalysisError("loop over a value that holds a generator object (%s) at %s:%d: not read" % (show(it)[:80], fx.func.file, n.lineno))
             if is_const(it) and isinstance(it[1], (tuple, list)) and len(it[1]) <= 16:
                 # a constant table (class-level tuple of rows): the same, with its rows as displays of constants
                 def lift(v):
